@@ -48,9 +48,16 @@ func (r *ComDoc) readShortSAT() error {
 
 // Free the old short-sector allocation table and write a new one
 func (r *ComDoc) writeShortSAT() error {
-	freeSectors(r.SAT, r.Header.SSATNextSector)
+	if r.Header.SSATNextSector >= 0 {
+		freeSectors(r.SAT, r.Header.SSATNextSector)
+	}
 	perSector := r.SectorSize / 4
 	freeList := r.makeFreeSectors(len(r.SSAT)/perSector, false)
+	if len(freeList) == 0 {
+		r.Header.SSATNextSector = SecIDEndOfChain
+		r.Header.SSATSectorCount = 0
+		return nil
+	}
 	buf := bytes.NewBuffer(r.sectorBuf)
 	first := SecIDEndOfChain
 	previous := first
@@ -112,6 +119,13 @@ func (r *ComDoc) writeShortSector(shortSector SecID, content []byte) error {
 	bigSectorIndex := int(shortSector) * r.ShortSectorSize / r.SectorSize
 	offset := int(shortSector)*r.ShortSectorSize - bigSectorIndex*r.SectorSize
 	root := &r.Files[r.rootStorage]
+	if root.NextSector < 0 {
+		// no short-sector stream yet: start one
+		first := r.makeFreeSectors(1, false)[0]
+		r.SAT[first] = SecIDEndOfChain
+		root.NextSector = first
+		root.StreamSize = 0
+	}
 	bigSectorID := root.NextSector
 	for ; bigSectorIndex > 0; bigSectorIndex-- {
 		next := r.SAT[bigSectorID]
